@@ -25,14 +25,17 @@ type c08Ev struct {
 	OK  bool   `json:"ok,omitempty"`  // handshake messages: contents valid
 	Aux bool   `json:"aux,omitempty"` // SH: echo offered session; CH: offer resumable session; CERT (to a server): non-empty
 	Ck  bool   `json:"ck,omitempty"`  // dtlcp CH: carries a valid cookie
+	Pk  bool   `json:"pk,omitempty"`  // tlcp handshake message: packed into one record with the handshake message before it
 }
 
 type c08Input struct {
 	Stack   string  `json:"stack"`
 	Target  string  `json:"target"` // "client" | "server": the real endpoint's role
 	Suite   uint16  `json:"suite"`
-	Offered bool    `json:"offered"` // client target: a cached session is offered; server target: n/a
-	CertReq bool    `json:"certreq"` // server target: policy requests a certificate
+	Offered bool    `json:"offered"`            // client target: a cached session is offered; server target: n/a
+	CertReq bool    `json:"certreq"`            // server target: policy requests a certificate
+	Coop    bool    `json:"coop,omitempty"`     // dtlcp: the puppet follows the sequence as if it were legal (its ChangeCipherSpec always switches keys); only a completion is judged
+	DefAuth bool    `json:"def_auth,omitempty"` // server target, ECDHE suite: Config.ClientAuth is left at its default (the library requires the certificate anyway)
 	Evs     []c08Ev `json:"evs"`
 }
 
@@ -297,10 +300,10 @@ func c08Exec(in c08Input, reg *tk.Registry, evs []c08Ev, prev *c08Sess, post boo
 		}
 	} else {
 		ep = tk.EPConfig{Ident: "srv", Cache: "s"}
-		if in.CertReq {
+		if in.CertReq && !in.DefAuth {
 			ep.Auth = int(tlcp.RequestClientCert)
 		}
-		if ecdhe {
+		if ecdhe && !in.DefAuth {
 			ep.Auth = int(tlcp.RequireAndVerifyClientCert)
 		}
 	}
@@ -314,10 +317,16 @@ func c08Exec(in c08Input, reg *tk.Registry, evs []c08Ev, prev *c08Sess, post boo
 	}
 	loop := func(p *puppet.Peer, send func(e c08Ev)) {
 		var sent []c08Ev
-		for _, e := range evs {
+		for idx, e := range evs {
+			p.HoldHS = idx+1 < len(evs) && evs[idx+1].Pk // kept back: the next message shares its record
 			p.Absorb(5)
 			if p.L.TargetDone() {
 				return
+			}
+			if in.Coop {
+				send(e)
+				sent = append(sent, e)
+				continue
 			}
 			if in.Stack == "dtlcp" && e.K != "CCS" && e.K != "WARN" && e.K != "APP" && e.K != "END" && e.K != "OLD" && c08AwaitsCCS(in, sent) {
 				// dropped by the target as a retransmission whatever it contains: send a message of
@@ -420,6 +429,9 @@ func c08AddCase(out *emit.Out, scenario string, in c08Input) {
 	}
 	if in.Stack == "dtlcp" {
 		ctor = "DSeqCase"
+		if in.Coop {
+			ctor = "DSeqCoop"
+		}
 	}
 	role := "RClient"
 	if in.Target == "server" {
@@ -535,6 +547,8 @@ func runC08(p params) error {
 			}
 			for _, cr := range []bool{false, true} {
 				if puppet.IsECDHE(su) && !cr {
+					// the configuration leaves ClientAuth at its default: an ECDHE server asks for the certificate all the same
+					cfgs = append(cfgs, c08Input{Stack: st, Target: "server", Suite: su, CertReq: true, DefAuth: true})
 					continue
 				}
 				cfgs = append(cfgs, c08Input{Stack: st, Target: "server", Suite: su, CertReq: cr})
@@ -550,7 +564,55 @@ func runC08(p params) error {
 			in := cfg
 			in.Evs = fl
 			c08AddCase(out, "legal", in)
+			if cfg.Stack == "tlcp" {
+				// several handshake messages in one record: every message that follows a handshake message shares its
+				// record (legal); the message due after the ChangeCipherSpec packed in front of it (not legal)
+				isHS := func(e c08Ev) bool {
+					return e.K != "CCS" && e.K != "WARN" && e.K != "APP" && e.K != "FRAG" && e.K != "END"
+				}
+				pk := append([]c08Ev{}, fl...)
+				for i := 1; i < len(pk); i++ {
+					pk[i].Pk = isHS(pk[i]) && isHS(pk[i-1])
+				}
+				in.Evs = pk
+				c08AddCase(out, "packed-legal", in)
+				for i := 1; i+1 < len(fl); i++ {
+					if fl[i].K == "CCS" && isHS(fl[i-1]) && isHS(fl[i+1]) {
+						mv := append([]c08Ev{}, fl[:i]...)
+						nx := fl[i+1]
+						nx.Pk = true
+						mv = append(mv, nx, fl[i])
+						mv = append(mv, fl[i+2:]...)
+						in.Evs = mv
+						c08AddCase(out, "packed-across-ccs", in)
+					}
+				}
+			}
 			// omissions, duplications, transpositions
+			if cfg.Stack == "dtlcp" {
+				// a peer that itself follows the deviant order: one message left out, sent twice, or a message of another
+				// kind put in (each with its own message number), ChangeCipherSpec and Finished as a real peer sends them
+				isHS := func(e c08Ev) bool {
+					return e.K != "CCS" && e.K != "WARN" && e.K != "APP" && e.K != "FRAG" && e.K != "END" && e.K != "OLD" && e.K != "HVR"
+				}
+				co := cfg
+				co.Coop = true
+				for i := range fl {
+					if !isHS(fl[i]) || (fl[i].K == "CH" && i == 0) {
+						continue
+					}
+					co.Evs = append(append([]c08Ev{}, fl[:i]...), fl[i+1:]...)
+					c08AddCase(out, "peer-omits", co)
+					co.Evs = append(append(append([]c08Ev{}, fl[:i+1]...), fl[i]), fl[i+1:]...)
+					c08AddCase(out, "peer-repeats", co)
+					for _, f := range alpha {
+						if isHS(f) && f.K != "CH" && f.K != "SH" && (p.tier == "thorough" || f.K != fl[i].K) && f.K != "FIN" {
+							co.Evs = append(append(append([]c08Ev{}, fl[:i]...), f), fl[i:]...)
+							c08AddCase(out, "peer-inserts", co)
+						}
+					}
+				}
+			}
 			for i := range fl {
 				in.Evs = append(append([]c08Ev{}, fl[:i]...), fl[i+1:]...)
 				c08AddCase(out, "omit", in)
